@@ -3,7 +3,99 @@
 use crate::engine::{BfsCfg, DevCfg, Machine};
 use crate::m_index::{IdxMachine, IdxOracle, IdxSubject};
 use crate::{Job, Mode};
+use crate::m_life::{LifeCfg, LifeMachine, Twin};
+use crate::spec::{Entry, Spec, Visitor};
 use flatcontainer::impls::index::{IndexList, IndexOptimized, Stride};
+
+/// Non-generic view of an entry, for filters.
+pub struct Info {
+    pub name: String,
+    pub dense: bool,
+    pub strings: bool,
+    pub collapse: bool,
+    pub vector_backed: bool,
+    pub coded: bool,
+    pub zst: bool,
+    pub cloneable: bool,
+    pub serde: bool,
+    pub n_forms: usize,
+    pub has_heap: bool,
+    pub positional: bool,
+}
+
+pub fn info<S: Spec>(e: &Entry<S>) -> Info {
+    let name = S::name();
+    Info {
+        positional: name.contains("SliceRegion") || name.contains("ColumnsRegion"),
+        name,
+        dense: e.dense,
+        strings: e.strings,
+        collapse: e.collapse,
+        vector_backed: e.vector_backed,
+        coded: e.coded != crate::spec::Coded::No,
+        zst: e.zst,
+        cloneable: e.clone_fn.is_some(),
+        serde: e.ser.is_some(),
+        n_forms: e.forms.len(),
+        has_heap: e.has_heap,
+    }
+}
+
+struct LifeJobs<'a> {
+    out: &'a mut Vec<Job>,
+    cfg: LifeCfg,
+    filter: &'a dyn Fn(&Info) -> bool,
+    tweak: &'a dyn Fn(&Info, &mut LifeCfg),
+    bfs_depth: usize,
+    devs: Vec<(usize, usize, u8)>,
+}
+
+/// entries without state matching (zero-sized elements) get a small alphabet and a depth cap
+fn zst_tweak(i: &Info, c: &mut LifeCfg, depth: &mut usize) {
+    if i.zst {
+        c.n_forms = c.n_forms.min(2);
+        c.n_values = 4;
+        c.use_large = false;
+        *depth = (*depth).min(4);
+    }
+}
+
+impl<'a> Visitor for LifeJobs<'a> {
+    fn visit<S: Spec>(&mut self, e: Entry<S>) {
+        let inf = info(&e);
+        if !(self.filter)(&inf) {
+            return;
+        }
+        let mut cfg = self.cfg.clone();
+        (self.tweak)(&inf, &mut cfg);
+        let mut depth = self.bfs_depth;
+        zst_tweak(&inf, &mut cfg, &mut depth);
+        if self.bfs_depth > 0 {
+            let (e2, c2) = (e.clone(), cfg.clone());
+            let mut b = BfsCfg::new(depth);
+            b.wall_cap_s = 300.0;
+            b.max_states = 1_500_000;
+            self.out.push(job(move || Box::new(LifeMachine::<S>::new(e2.clone(), c2.clone())), Mode::Bfs(b), false));
+        }
+        for &(n, k, script) in &self.devs {
+            let (e2, mut c2) = (e.clone(), cfg.clone());
+            c2.script = script;
+            self.out.push(job(move || Box::new(LifeMachine::<S>::new(e2.clone(), c2.clone())), Mode::Dev(DevCfg::new(n, k)), false));
+        }
+    }
+}
+
+fn life(
+    out: &mut Vec<Job>,
+    cfg: LifeCfg,
+    bfs_depth: usize,
+    devs: &[(usize, usize, u8)],
+    filter: &dyn Fn(&Info) -> bool,
+    tweak: &dyn Fn(&Info, &mut LifeCfg),
+) {
+    let mut v = LifeJobs { out, cfg, filter, tweak, bfs_depth, devs: devs.to_vec() };
+    crate::catalogue::visit_all(&mut v);
+}
 
 pub const ALL: &[&str] = &[
     "C01", "C02", "C03", "C04", "C05", "C06", "C07", "C08", "C09", "C10", "C11", "C12", "C13", "C14", "C15", "C16",
@@ -42,6 +134,174 @@ pub fn jobs(prop: &str, tier: &str) -> Vec<Job> {
             let scripts: &[u8] = &[0, 1, 2, 3];
             idx_jobs::<IndexList<Vec<u32>, Vec<u64>>>(&mut out, IdxOracle::Space, d, devs, scripts);
             idx_jobs::<IndexOptimized>(&mut out, IdxOracle::Space, d, devs, scripts);
+        }
+        "C01" => {
+            let mut c = LifeCfg::new("C01");
+            c.use_large = true;
+            life(&mut out, c, if thorough { 3 } else { 2 }, &[], &|_| true, &|_, _| {});
+        }
+        "C02" => {
+            let mut c = LifeCfg::new("C02");
+            c.clear = true;
+            c.reserve_items = true;
+            c.reserve_regions = true;
+            let devs: &[(usize, usize, u8)] = if thorough { &[(256, 1, 0), (64, 2, 0), (64, 2, 1)] } else { &[(48, 1, 0), (24, 2, 1)] };
+            life(&mut out, c, if thorough { 6 } else { 4 }, devs, &|_| true, &|_, _| {});
+        }
+        "C04" => {
+            let mut c = LifeCfg::new("C04");
+            c.clear = true;
+            c.clone_replace = true;
+            c.serde_replace = true;
+            c.merge = true;
+            c.finite_only = true;
+            c.use_large = false;
+            c.n_values = 9;
+            life(&mut out, c, if thorough { 5 } else { 3 }, if thorough { &[(48, 2, 0)] } else { &[(24, 1, 0)] }, &|i| i.strings, &|i, c| {
+                // compositions of strings use their 4 structured values; plain string regions the 9 adversarial strings
+                if i.name.starts_with("StringRegion") || i.name.starts_with("Collapse") || i.name.starts_with("Consecutive") {
+                    c.use_large = true;
+                }
+            });
+        }
+        "C06" => {
+            use crate::m_huff::*;
+            let mut add8 = |p: Profile, depth: usize, merges: usize, out: &mut Vec<Job>| {
+                let mut b = BfsCfg::new(depth);
+                b.wall_cap_s = if thorough { 900.0 } else { 40.0 };
+                out.push(job(move || Box::new(HuffMachine::<u8>::new(p.clone(), merges)), Mode::Bfs(b), false));
+            };
+            let add16 = |p: Profile, depth: usize, merges: usize, out: &mut Vec<Job>| {
+                let mut b = BfsCfg::new(depth);
+                b.wall_cap_s = if thorough { 900.0 } else { 40.0 };
+                out.push(job(move || Box::new(HuffMachine::<u16>::new(p.clone(), merges)), Mode::Bfs(b), false));
+            };
+            let empty = Profile { name: "empty".into(), counts: vec![] };
+            if thorough {
+                for p in small_profiles(4) {
+                    add8(p, 3, 1, &mut out);
+                }
+                for k in [6, 10, 12] {
+                    add8(fib_profile(k), 3, 1, &mut out);
+                }
+                for k in [18, 24] {
+                    add8(fib_profile(k), 2, 1, &mut out);
+                }
+                add8(empty.clone(), 3, 2, &mut out);
+                add16(uniform_profile(257, 1), 2, 1, &mut out);
+                add16(uniform_profile(300, 2), 2, 1, &mut out);
+                add16(mixed_profile(600), 2, 1, &mut out);
+                add16(fib_profile(12), 3, 1, &mut out);
+            } else {
+                let all = small_profiles(4);
+                for name in ["counts[1]", "counts[3]", "counts[1, 1]", "counts[2, 1]", "counts[1, 1, 1]", "counts[1, 2, 3]", "counts[1, 1, 1, 1]", "counts[3, 3, 1, 1]", "counts[3, 1, 1, 1]"] {
+                    let p = all.iter().find(|p| p.name == name).unwrap().clone();
+                    add8(p, 2, 1, &mut out);
+                }
+                add8(fib_profile(6), 2, 1, &mut out);
+                add8(fib_profile(10), 2, 1, &mut out);
+                add8(fib_profile(18), 1, 0, &mut out);
+                add8(empty.clone(), 2, 1, &mut out);
+                add16(uniform_profile(257, 1), 1, 0, &mut out);
+                add16(uniform_profile(300, 1), 2, 1, &mut out);
+            }
+        }
+        "C07" => {
+            use crate::m_dict::{Alphabet, DictCfg, DictMachine};
+            let mut add = |seed: u8, alphabet: Alphabet, depth: usize, max_merges: usize| {
+                let cfg = DictCfg { seed, alphabet, max_merges };
+                let mut b = BfsCfg::new(depth);
+                b.wall_cap_s = if thorough { 600.0 } else { 40.0 };
+                b.max_states = 6_000_000;
+                out.push(job(move || Box::new(DictMachine::new(cfg.clone())), Mode::Bfs(b), true));
+            };
+            if thorough {
+                add(0, Alphabet::Relative, 6, 3);
+                add(1, Alphabet::Relative, 5, 2);
+                add(2, Alphabet::Relative, 5, 2);
+                for seed in 0..3 {
+                    add(seed, Alphabet::AllBytes, 2, 0);
+                }
+                for seed in 3..6 {
+                    add(seed, Alphabet::Relative, 3, 1);
+                }
+            } else {
+                add(0, Alphabet::Relative, 4, 2);
+                add(1, Alphabet::Relative, 3, 1);
+                add(2, Alphabet::Relative, 3, 1);
+                for seed in 0..3 {
+                    add(seed, Alphabet::AllBytes, 1, 0);
+                }
+                for seed in 3..6 {
+                    add(seed, Alphabet::Relative, 1, 1);
+                }
+            }
+        }
+        "C08" => {
+            let mut c = LifeCfg::new("C08");
+            c.twin = Twin::FreshAtClear;
+            c.clear = true;
+            c.merge = true;
+            c.reserve_regions = true;
+            c.n_forms = 2;
+            c.n_values = 3;
+            let devs: &[(usize, usize, u8)] = if thorough { &[(48, 2, 0), (48, 2, 1)] } else { &[(24, 2, 1)] };
+            life(&mut out, c, if thorough { 6 } else { 5 }, devs, &|_| true, &|_, _| {});
+        }
+        "C10" => {
+            let mut c = LifeCfg::new("C10");
+            c.twin = Twin::NeverReserve;
+            c.clear = true;
+            c.merge = true;
+            c.reserve_regions = true;
+            c.reserve_items = true;
+            c.n_forms = 2;
+            c.n_values = 3;
+            let devs: &[(usize, usize, u8)] = if thorough { &[(48, 2, 0)] } else { &[(24, 1, 0)] };
+            life(&mut out, c, if thorough { 5 } else { 4 }, devs, &|_| true, &|_, _| {});
+        }
+        "C12" => {
+            let mut c = LifeCfg::new("C12");
+            c.clear = true;
+            c.merge = true;
+            c.o_dense = true;
+            c.n_forms = 3;
+            let devs: &[(usize, usize, u8)] = if thorough { &[(64, 2, 0)] } else { &[(32, 1, 0)] };
+            life(&mut out, c, if thorough { 7 } else { 5 }, devs, &|i| i.dense, &|_, _| {});
+        }
+        "C13" => {
+            let mut c = LifeCfg::new("C13");
+            c.o_positions = true;
+            c.n_forms = 1;
+            c.clear = true;
+            life(&mut out, c, if thorough { 4 } else { 3 }, &[], &|i| i.positional, &|_, _| {});
+        }
+        "C14" => {
+            let mut c = LifeCfg::new("C14");
+            c.o_owned_laws = true;
+            c.n_forms = usize::MAX;
+            life(&mut out, c, if thorough { 3 } else { 2 }, &[], &|_| true, &|_, _| {});
+        }
+        "C16" => {
+            let mut c = LifeCfg::new("C16");
+            c.twin = Twin::SerdeLockstep;
+            c.serde_twin = true;
+            c.finite_only = true;
+            c.clear = true;
+            c.n_forms = 2;
+            c.n_values = 3;
+            life(&mut out, c, if thorough { 5 } else { 4 }, if thorough { &[(32, 2, 1)] } else { &[(16, 1, 1)] }, &|i| i.serde && !i.zst, &|_, _| {});
+            let d = if thorough { 5 } else { 3 };
+            idx_jobs::<Stride>(&mut out, IdxOracle::Serde, d + 1, &[], &[]);
+            idx_jobs::<IndexList<Vec<u32>, Vec<u64>>>(&mut out, IdxOracle::Serde, d, &[], &[]);
+            idx_jobs::<IndexOptimized>(&mut out, IdxOracle::Serde, d, &[], &[]);
+            idx_jobs::<Vec<usize>>(&mut out, IdxOracle::Serde, d, &[], &[]);
+        }
+        "C20" => {
+            let mut c = LifeCfg::new("C20");
+            c.twin = Twin::CanonForm;
+            c.clear = true;
+            life(&mut out, c, if thorough { 4 } else { 3 }, &[], &|i| i.n_forms > 1, &|_, _| {});
         }
         _ => {}
     }
